@@ -60,6 +60,9 @@ structure Fut where
   q : Nat
   res : ResState
   waker : Option Waker
+  /-- `SchedulerFuture::draining`: set while the future drains its queue and left set when drain_queue returns Pending with
+  the queue waiting to be polled by this future; NOT reset when a later poll finds the result already there. -/
+  draining : Bool := false
   deriving DecidableEq, Repr, Hashable, Inhabited
 
 structure Gate where
@@ -228,6 +231,7 @@ inductive Pc where
   | sfBlocked (u : Nat)
   | sfDrop (u : Nat)                       -- the SyncFuture is dropped: user future first ...
   | sfDropDone (u : Nat)                   -- ... then the completion sender
+  | fdDrop (f : Nat) (k : Pc)              -- a SchedulerFuture is dropped: a queue waiting to be polled by it is handed back
   | resumeSend (op : Nat) (k : Pc)         -- QueueResumer::resume / drop: send on the resume channel of suspend `op`
   | suspSignal (j : Nat) (c : Ctx) (k : Pc)   -- suspend job: signal(finished_suspending)
   | suspSigDrop (j : Nat) (c : Ctx) (k : Pc)
